@@ -1,5 +1,5 @@
 """C17: well-formed use never crashes; unsupported constructs are rejected with RTAMTException, not evaluated."""
-import random, sys, os
+import json, random, sys, os
 sys.path.insert(0, os.path.join(os.path.dirname(os.path.abspath(__file__)), "..", "harness"))
 import core, mc, runner
 from astlib import *
@@ -41,8 +41,31 @@ def main():
     rep.add_mc("SupportMC: PastifyClosed, DiscreteTotal, DenseTotal for %d formulas of depth <= 2 over the whole operator set" % len(FS), r)
     if r["violated"]:
         rep.mc_violation("SupportMC", r)
+    # (A) + (B): which names are input signals (spec/Inputs.tla) - every sequence of 3 assertions over 5 identifiers keeps every
+    # signal a formula reads among the inputs; the behaviours TLC explored are replayed on the four monitors (below)
+    import inputsmc
+    r = inputsmc.run("C17_inputs", ["x", "y", "o.f", "o.g", "out"], maxa=3, maxr=2, workers=8)
+    rep.add_mc("Inputs: ReadImpliesFree, OnlyAssignedNotFree for every sequence of 3 assertions over {x, y, o.f, o.g, out}, <= 2 identifiers per formula", r[0])
+    if r[0]["violated"]:
+        rep.mc_violation("Inputs", r[0])
+    idev = {}
+    for dev in ("discardAlways", "scanDict", "noReAdd"):
+        rr = inputsmc.run("C17_inputs_dev_" + dev, ["x", "y", "o.f", "o.g", "out"], maxa=3, maxr=2, dev=[dev], workers=4, expect_violation=True)
+        idev[dev] = rr[0]["violated"]
+    rep.extra["inputs_deviation_on_counterexamples"] = idev
+    _, behs = inputsmc.run("C17_inputs_beh", ["x", "o.f", "o.g", "out"], maxa=3, maxr=2, emit=True, workers=1)
+    behs = sorted([b for b in behs if inputsmc.interesting(b)], key=lambda b: json.dumps(b, sort_keys=True))
+    rngb = random.Random(core.seed() * 7919 + 1717)
+    rngb.shuffle(behs)
+    ibeh = []
+    for b in behs[:(120 if quick else 4000)]:
+        for kind in ("dt_off", "dt_on", "ct_off", "ct_on"):
+            c_ = inputsmc.to_case(b, kind, rngb)
+            if c_:
+                ibeh.append(c_)
+    rep.extra["inputs_behaviours_replayed"] = {"explored": len(behs), "replayed_cases": len(ibeh)}
     n = 900 if quick else 20000
-    dt, ct = [], []
+    dt, ct = [c_ for c_ in ibeh if c_["kind"].startswith("dt")], [c_ for c_ in ibeh if c_["kind"].startswith("ct")]
     for i in range(n):
         S = rng.choice([1, 1, 2])
         kind = rng.choice(["dt_off", "dt_on", "dt_past", "ct_off", "ct_on", "ct_past"])
